@@ -556,8 +556,8 @@ func c18InProcess(ctx *Ctx) {
 			if r.Crash != "" {
 				msg = "fatal: " + lastLine(r.Crash)
 			}
-			if strings.Contains(sc.Axes["leaf"], "allOf") && sc.Axes["pos"] == "recursion" && ctx.Run.Listed("RECURSION_THROUGH_ALLOF_NO_TERMINATION") {
-				ctx.Run.Known("RECURSION_THROUGH_ALLOF_NO_TERMINATION", sc.ID+": "+msg, replay)
+			if sc.Axes["leaf"] == "self/two-anyOf-item-edges" && sc.Axes["pos"] == "recursion" && ctx.Run.Listed("TWO_RECURSIVE_ANYOF_ITEM_EDGES_NO_TERMINATION") {
+				ctx.Run.Known("TWO_RECURSIVE_ANYOF_ITEM_EDGES_NO_TERMINATION", sc.ID+": "+msg, replay)
 				outcomes["known"]++
 				return
 			}
